@@ -792,3 +792,7 @@ CASES["C08"] += [
     ("reintroduce F-36 (xDMA masks follow the last operand's zero pattern)", "mutant", "snaxc/accelerators/snax_xdma.py", "@revert:b5e47e4~1", "", ["C08.per-streamer-fresh"]),
 ]
 
+CASES["C07"] += [
+    ("reintroduce F-37 (state carried into sibling regions / blocks)", "mutant", "snaxc/transforms/convert_linalg_to_accfg.py", "@revert:cc67a9a~1", "", ["C07.weave-regions"]),
+]
+
